@@ -182,6 +182,9 @@ impl Recipe {
     pub fn expand(&self) -> Vec<u128> {
         let counts = self.counts();
         let d = counts.len();
+        if d == 0 {
+            return vec![];
+        }
         let mut rng = Rng::new(self.seed);
         // which alphabet symbol gets which count: pseudo-random assignment so that the most
         // frequent symbol is not always the smallest one
